@@ -583,6 +583,16 @@ def run_robust(fe_name, blob: bytes):
                          f"bystander Interest did not complete with its own Data after the bad packet: {v.outcomes.get('bystander')}"))
         if v.handled.count('hb') - before_hb != 1:
             viol.append((f'C06|robust|{fe_name}|bystander-handler', 'bystander handler did not fire exactly once for a good Interest'))
+        # ... and so do the Interests on the name the bad packet was about, as far as it did not legitimately complete them: their
+        # Data arrives now
+        waiting = [k for k in ('t-exact', 't-prefix', 't-digest') if v.outcomes.get(k) is None]
+        v.face.handler.datagram_received(corpus()['data'], None)
+        loop.drain()
+        for k in waiting:
+            if not str(v.outcomes.get(k)).startswith('data:'):
+                viol.append((f'C06|robust|{fe_name}|pending-interest-lost|{k}',
+                             f'pending Interest {k} was still waiting after {blob[:24].hex()}... (len {len(blob)}) but the Data /t/a arriving afterwards '
+                             f'did not complete it: {v.outcomes.get(k)}'))
         loop.settle()
         for key in v.pend:
             o = v.outcomes.get(key)
